@@ -51,6 +51,9 @@ class RealAPI:
     dense_rank = staticmethod(X.dense_rank)
     lit = staticmethod(X.lit)
     Int64 = pdt.Int64
+    Int8 = pdt.Int8
+    Int16 = pdt.Int16
+    Int32 = pdt.Int32
     Int = pdt.Int
     Float64 = pdt.Float64
     Float = pdt.Float
